@@ -81,3 +81,39 @@ func Harness_C04_Infinite_Stop() { harnessGo(2, "go infinite", true) }
 func Harness_C04_Movetime() { harnessGo(2, "go movetime 100", false) }
 
 var _ = board.White
+
+// two go commands in a row, the second sent after the first search has ended by itself and
+// been answered (no position or stop in between): each is answered exactly once
+func harnessGoTwice(pos int, goCmd string) {
+	ctx := context.Background()
+	e := newTestEngine()
+	in := make(chan string, 16)
+	out := make(chan string, 1000)
+	d := &Driver{AsyncCloser: iox.NewAsyncCloser(), e: e, out: out, ponder: make(chan search.PV, 400)}
+	go d.process(ctx, in)
+	in <- c04Positions[pos]
+	verifReach("go-twice")
+	var best [2]string
+	for k := 0; k < 2; k++ {
+		in <- goCmd
+		for l := range out {
+			if strings.HasPrefix(l, "bestmove ") {
+				best[k] = strings.TrimPrefix(l, "bestmove ")
+				break
+			}
+		}
+	}
+	in <- "quit"
+	extra := 0
+	for l := range out {
+		if strings.HasPrefix(l, "bestmove ") {
+			extra++
+		}
+	}
+	verifReach("answered-twice")
+	verifAssert(best[0] != "" && best[1] != "", "every go command is answered by a bestmove, also one that follows a search that ended by itself")
+	verifAssert(extra == 0, "each go command is answered exactly once")
+	verifAssert(legalText(e, best[0]) && legalText(e, best[1]), "the answered moves are legal in the position last set up")
+}
+
+func Harness_C04_GoTwice() { harnessGoTwice(2, "go depth 1") }
